@@ -219,6 +219,18 @@ fn history_block(b: u64) -> BlockReport {
     judge(1_000_000, (base_s + 1) * 1_000_000 + 5, &mut rep);
     judge(1_000_000, 1_700_000_000_123_999, &mut rep);
     judge(1000, 1_699_999_999_999, &mut rep);
+    // an input beyond the domain (whole seconds do not fit 32 bits: nothing is asserted about it, it may even panic)
+    // directly followed by inputs in the last seconds of the domain
+    if b % 64 == 0 {
+        for unit in [1000u64, 1_000_000] {
+            for beyond in [(1u64 << 32) * unit + unit / 4, (1u64 << 32) * unit, ((1u64 << 32) + 5) * unit + 1, u64::MAX] {
+                std::hint::black_box(guard(|| if unit == 1000 { DltTimeStamp::from_ms(beyond) } else { DltTimeStamp::from_us(beyond) }).ok());
+                judge(unit, ((1u64 << 32) - 1) * unit + unit * 9 / 10, &mut rep);
+                judge(unit, ((1u64 << 32) - 1) * unit, &mut rep);
+                judge(unit, ((1u64 << 32) - 2) * unit + unit - 1, &mut rep);
+            }
+        }
+    }
     // two consecutive calls a little more than one second apart inside one power-of-two block of the unit (2^20 us /
     // 2^10 ms hold one second and a bit: some blocks contain two second boundaries)
     {
